@@ -16,6 +16,7 @@ CORE_TYPES = [
     (["decimal"], [10, 2]), (["numeric"], [5, 0]), (["number"], [38]), (["float"], [8]),
     (["double", "precision"], None), (["character", "varying"], [30]), (["varchar"], None),
     (["decimal"], [18, 4]), (["NUMERIC"], [12, 3]),
+    (["time"], [0]), (["timestamp"], [0]), (["varchar"], [0]), (["decimal"], [0, 0]), (["timestamp"], [6]), (["bit", "varying"], [5]),
 ]
 
 PLAIN_NAMES = ["id", "name", "a", "b1", "col_x", "Amount", "created_at", "user_id", "x9", "Status",
